@@ -595,6 +595,16 @@ Fixpoint find_first_sep (s : str) : option nat :=     (* Regex "[/^*]" find *)
               else match find_first_sep t with Some i => Some (S i) | None => None end
   end.
 
+(* lowercase_regex_body (since /repo 5436c47): the body of a /regex/ rule is lower-cased except for
+   the byte that follows a backslash (\D, \W, \S, \B are not \d, \w, \s, \b) *)
+Fixpoint lower_regex_esc (escaped : bool) (s : str) : str :=
+  match s with
+  | [] => []
+  | c :: r => if escaped then c :: lower_regex_esc false r
+              else to_lower c :: lower_regex_esc (N.eqb c BACKSLASH) r
+  end.
+Definition lower_regex_body (s : str) : str := lower_regex_esc false s.
+
 Record pfields := { pf_shape : shape; pf_filter : option str; pf_hostname : option str;
                     pf_http : option bool; pf_https : option bool; pf_ws : bool }.
 
@@ -644,7 +654,7 @@ Definition parse_pattern (lk : left_kind) (right_pipe : bool) (pattern : str) : 
       else (fis2, la2, None, None, false)
     else (fis2, la2, None, None, false) in
   let filter := if Nat.ltb fis3 fie1
-                then Some (lower_str (take (fie1 - fis3) (drop fis3 pattern))) else None in
+                then Some ((if cr then lower_regex_body else lower_str) (take (fie1 - fis3) (drop fis3 pattern))) else None in
   let rx2 := match filter with Some f => check_is_regex f | None => rx1 end in
   let hostname' :=
     match hostname with
